@@ -130,9 +130,10 @@ def mk(t):
 class Sym:
     """symbolic number (z3 Int or Real)"""
 
-    __slots__ = ("t",)
+    __slots__ = ("t", "shift")
 
     def __init__(self, t):
+        self.shift = None
         # fold constant sub-terms (pinned runs operate on numerals only)
         if t.num_args() and all(_numeral(c) is not None for c in t.children()):
             t = z3.simplify(t)
@@ -298,6 +299,55 @@ class Sym:
 
     def conjugate(s):
         return s
+
+    def to_bv(s, signed=True):
+        """Int-sorted value as a 64-bit machine word (wraps like numpy)"""
+        if _is_real(s.t):
+            raise NotEncodable("bit operation on a real")
+        return SymBV(z3.Int2BV(s.t, 64), signed)
+
+    # Bit operations on unbounded (Int-sorted) values keep integer arithmetic where that is exactly what numpy computes:
+    #   x << k  ==  x * 2^k            provided 0 <= x * 2^k < 2^64   (checked with the solver on the current path)
+    #   a ^ (b << k) == a | (b << k) == a + b * 2^k   provided 0 <= a < 2^k and b >= 0 (disjoint bits; checked likewise)
+    def __lshift__(s, o):
+        if _is_real(s.t) or not isinstance(o, (int, _np.integer)):
+            raise NotEncodable("shift")
+        k = int(o)
+        r = Sym(s.t * (1 << k)) if k else Sym(s.t)
+        if not ENGINE.must_hold(z3.And(s.t >= 0, s.t * (1 << k) < (1 << 64))):
+            raise NotEncodable("left shift may leave the 64-bit range")
+        r.shift = k
+        return r
+
+    def __rshift__(s, o):
+        raise NotEncodable("right shift of an unbounded integer")
+
+    def _disjoint_add(s, o):
+        if isinstance(o, (int, _np.integer)) and not isinstance(o, bool):
+            if int(o) == 0:
+                return s
+            o = Sym(z3.IntVal(int(o)))
+        if not isinstance(o, Sym) or _is_real(s.t) or _is_real(o.t):
+            raise NotEncodable("bit operation")
+        hi, lo = (s, o) if s.shift is not None else (o, s)
+        if hi.shift is None:
+            raise NotEncodable("xor/or of unbounded integers that are not a shifted lane")
+        k = hi.shift
+        if not ENGINE.must_hold(z3.And(lo.t >= 0, lo.t < (1 << k), hi.t >= 0)):
+            raise NotEncodable("xor/or operands may overlap")
+        return Sym(lo.t + hi.t)
+
+    def __xor__(s, o):
+        return s._disjoint_add(o)
+
+    __rxor__ = __xor__
+    __or__ = __xor__
+    __ror__ = __xor__
+
+    def __and__(s, o):
+        raise NotEncodable("bitwise and of unbounded integers")
+
+    __rand__ = __and__
 
     # numpy object loops call these methods by name
     def floor(s):
@@ -504,6 +554,8 @@ class Stats:
 class Engine:
     """one symbolic exploration (a 'unit')"""
 
+    opts = {}
+
     def __init__(self, feas_timeout_ms=2000, max_paths=2000, max_depth=4000, wall_s=600.0, seed=0):
         self.feas_timeout_ms = feas_timeout_ms
         self.max_paths = max_paths
@@ -605,6 +657,13 @@ class Engine:
         if r == "unknown":
             self.stats.unknown_feas += 1
         return r != "unsat"
+
+    def must_hold(self, cond):
+        """True iff cond is implied by the assumptions and the current path (solver)"""
+        c = z3.simplify(cond)
+        if z3.is_true(c):
+            return True
+        return self.check_sat([z3.Not(c)]) == "unsat"
 
     def add_assumption(self, cond):
         self.assume.append(cond)
@@ -782,6 +841,10 @@ class SymBV:
         if isinstance(o, (bool, _np.bool_)):
             return z3.BitVecVal(int(o), 64)
         if isinstance(o, (int, _np.integer)):
+            lo, hi = (-(1 << 63), (1 << 63) - 1) if self.signed else (0, (1 << 64) - 1)
+            if type(o) is int and not (lo <= o <= hi):
+                # numpy 2 refuses python ints that do not fit the array's dtype
+                raise OverflowError("Python int too large to convert to C long")
             return z3.BitVecVal(int(o) % (1 << 64), 64)
         raise NotEncodable("BV operand %r" % type(o))
 
@@ -832,7 +895,12 @@ class SymBV:
     def __invert__(s):
         return SymBV(~s.t, s.signed)
 
-    def _cmp(s, o, sf, uf):
+    def _cmp(s, o, sf, uf, kind=""):
+        if isinstance(o, (float, _np.floating)) and float(o) != int(o):
+            # machine integer against a non-integral float: compare with the neighbouring integer
+            o = _math.floor(o) if kind in ("gt", "le") else _math.ceil(o)
+        elif isinstance(o, (float, _np.floating)):
+            o = int(o)
         ot = s._o(o)
         signed = s.signed if not isinstance(o, SymBV) else (s.signed and o.signed)
         if isinstance(o, (int, _np.integer)) and not isinstance(o, (bool, _np.bool_)):
@@ -843,19 +911,19 @@ class SymBV:
         return SymBool(sf(s.t, ot) if signed else uf(s.t, ot))
 
     def __lt__(s, o):
-        r = s._cmp(o, lambda a, b: a < b, z3.ULT)
+        r = s._cmp(o, lambda a, b: a < b, z3.ULT, "lt")
         return (r == "above") if isinstance(r, str) else r
 
     def __le__(s, o):
-        r = s._cmp(o, lambda a, b: a <= b, z3.ULE)
+        r = s._cmp(o, lambda a, b: a <= b, z3.ULE, "le")
         return (r == "above") if isinstance(r, str) else r
 
     def __gt__(s, o):
-        r = s._cmp(o, lambda a, b: a > b, z3.UGT)
+        r = s._cmp(o, lambda a, b: a > b, z3.UGT, "gt")
         return (r == "below") if isinstance(r, str) else r
 
     def __ge__(s, o):
-        r = s._cmp(o, lambda a, b: a >= b, z3.UGE)
+        r = s._cmp(o, lambda a, b: a >= b, z3.UGE, "ge")
         return (r == "below") if isinstance(r, str) else r
 
     def __eq__(s, o):
@@ -902,3 +970,57 @@ def _concretize_bv(self, t, signed):
 
 
 Engine.concretize_bv = _concretize_bv
+
+
+class RowKey:
+    """one row seen through an np.void / structured view: equal iff the rows are equal element-wise (numpy's contract
+    for such views); ordered like the row tuples"""
+
+    __slots__ = ("row",)
+
+    def __init__(self, row):
+        self.row = tuple(row)
+
+    def _eq(self, o):
+        r = True
+        for a, b in zip(self.row, o.row):
+            r = r & (a == b)
+        return r
+
+    def __eq__(self, o):
+        if not isinstance(o, RowKey):
+            return NotImplemented
+        return self._eq(o)
+
+    def __ne__(self, o):
+        if not isinstance(o, RowKey):
+            return NotImplemented
+        r = self._eq(o)
+        return (~r) if isinstance(r, SymBool) else (not r)
+
+    def _lt(self, o):
+        # lexicographic, first column most significant
+        res = False
+        for a, b in reversed(list(zip(self.row, o.row))):
+            res = (a < b) | ((a == b) & res)
+        return res
+
+    def __lt__(self, o):
+        return self._lt(o)
+
+    def __gt__(self, o):
+        return o._lt(self)
+
+    def __le__(self, o):
+        r = o._lt(self)
+        return (~r) if isinstance(r, SymBool) else (not r)
+
+    def __ge__(self, o):
+        r = self._lt(o)
+        return (~r) if isinstance(r, SymBool) else (not r)
+
+    def __hash__(self):
+        return hash(tuple(hash(v) for v in self.row))
+
+    def __repr__(self):
+        return "RowKey%r" % (self.row,)
